@@ -22,6 +22,9 @@ func init() {
 		Technique: "dominance facts with assumption pruning, argument provenance, who-may-call on the head getter, critical-region and must-precede rules on the single-flight wrapper, comparison-shape check",
 		Trusted:   "go/types+go/ssa; C09 for what the Exchange verifies; sync.Mutex semantics",
 		Run:       runC19,
+		Imports: []Import{
+			{From: "C15.a", Match: "nil-needs-verify", As: "C19.e", Why: "while the stored head is expired the only way to a new subjective head is the re-initialisation from trusted peers: every other candidate (gossip, the soft-failure branch of the refresh) goes through verify, which must not accept anything header.Verify or the search has not accepted — also not 'because the local head is expired anyway'"},
+		},
 	})
 }
 
